@@ -110,7 +110,7 @@ impl Prop for C09T {
         "C09"
     }
     fn budget(&self, thorough: bool) -> u64 {
-        if thorough { 15_000_000 } else { 500_000 }
+        if thorough { 15_000_000 } else { 1_500_000 }
     }
     fn generate(&self, seed: u64, _thorough: bool) -> Scenario {
         let mut rng = Rng::new(seed);
